@@ -62,3 +62,31 @@ Fixpoint ewf_body (next : nat) (open : option nat) (t : list eev) : bool :=
   | EvStart :: _ => false
   end.
 Definition ewf (t : list eev) : bool := match t with EvStart :: r => ewf_body 0 None r | _ => false end.
+
+(* ---- the probing phase (engine/phases/probes.py: send / execute): one probe request ----
+   What can happen on the probe, and what the phase does with it.  `PbRequestError` stands for ANY subclass of
+   requests.RequestException other than MissingSchema (redirect loops, broken content encodings, invalid redirect targets,
+   connection errors, timeouts, ...): all of them are turned into an ERROR outcome, none escapes the phase. *)
+Inductive probe_beh :=
+| PbResponse (status : nat)
+| PbMissingSchema
+| PbRequestError
+| PbInterrupt.            (* KeyboardInterrupt: not caught by the phase; the plan closes the phase (KiBeforeFinish) *)
+
+Inductive probe_outcome := PoSuccess | PoFailure | PoSkip | PoError.
+
+Definition probe_send (b : probe_beh) : option probe_outcome :=
+  match b with
+  | PbResponse st => Some (if Nat.eqb st 400 then PoFailure else PoSuccess)
+  | PbMissingSchema => Some PoSkip
+  | PbRequestError => Some PoError
+  | PbInterrupt => None
+  end.
+
+(* probes.execute as a phase of the plan: status ERROR iff the probe errored, SUCCESS otherwise *)
+Definition probing_phase (b : probe_beh) : ephase :=
+  match probe_send b with
+  | Some o => {| e_enabled := true; e_body := 0; e_status := match o with PoError => ERROR | _ => SUCCESS end;
+                 e_stop := false; e_limit := false; e_ki := KiNone |}
+  | None => {| e_enabled := true; e_body := 0; e_status := SUCCESS; e_stop := true; e_limit := false; e_ki := KiBeforeFinish |}
+  end.
